@@ -11,6 +11,8 @@ BEGIN_WRITE = ("nervusdb::Db::begin_write", "nervusdb_storage::engine::GraphEngi
 DB_OPEN = ("nervusdb::Db::open", "nervusdb::Db::open_paths")
 EXEC = ("execute_mixed", "execute_write", "execute_write_with_rows", "execute_streaming")
 
+WITNESSES = ["TransactionBorrowsHandle"]
+
 
 def run(ctx):
     F = ctx.facts
